@@ -4,26 +4,31 @@
 (* and hands the encoding to the connection in one Write.  A message is a     *)
 (* pair <<producer, index>>; its encoding is a frame identified by the pair.  *)
 EXTENDS Integers, Sequences, FiniteSets, TLC
-CONSTANTS Producers, PerProducer, TwoWriters, WriteFails
-VARIABLES next, outbound, wpc, wmsg, wire
-vars == <<next, outbound, wpc, wmsg, wire>>
+CONSTANTS Producers, PerProducer, TwoWriters, WriteFails, AppShuts
+VARIABLES next, outbound, wpc, wmsg, wire, closed
+vars == <<next, outbound, wpc, wmsg, wire, closed>>
 Writers == IF TwoWriters THEN {1, 2} ELSE {1}
 Init == /\ next = [p \in Producers |-> 1] /\ outbound = <<>>
-        /\ wpc = [w \in Writers |-> "recv"] /\ wmsg = [w \in Writers |-> <<0, 0>>] /\ wire = <<>>
+        /\ wpc = [w \in Writers |-> "recv"] /\ wmsg = [w \in Writers |-> <<0, 0>>] /\ wire = <<>> /\ closed = FALSE
 Submit(p) == /\ next[p] <= PerProducer /\ Len(outbound) < 1
              /\ outbound' = Append(outbound, <<p, next[p]>>) /\ next' = [next EXCEPT ![p] = @ + 1]
-             /\ UNCHANGED <<wpc, wmsg, wire>>
+             /\ UNCHANGED <<wpc, wmsg, wire, closed>>
 WRecv(w) == /\ wpc[w] = "recv" /\ outbound # <<>>
             /\ wmsg' = [wmsg EXCEPT ![w] = Head(outbound)] /\ outbound' = Tail(outbound)
-            /\ wpc' = [wpc EXCEPT ![w] = "write"] /\ UNCHANGED <<next, wire>>
-WWrite(w) == /\ wpc[w] = "write" /\ wire' = Append(wire, wmsg[w]) /\ wpc' = [wpc EXCEPT ![w] = "recv"]
-             /\ UNCHANGED <<next, outbound, wmsg>>
+            /\ wpc' = [wpc EXCEPT ![w] = "write"] /\ UNCHANGED <<next, wire, closed>>
+WWrite(w) == /\ wpc[w] = "write" /\ ~closed /\ wire' = Append(wire, wmsg[w]) /\ wpc' = [wpc EXCEPT ![w] = "recv"]
+             /\ UNCHANGED <<next, outbound, wmsg, closed>>
+\* the application shuts the stream down: shutdown() closes the connection and then drains (discards) what is queued on Outbound;
+\* the writer's next Write fails and it gives up.  Nothing is written by anyone but the writer.
+AppShutdown == /\ AppShuts /\ ~closed /\ closed' = TRUE /\ UNCHANGED <<next, outbound, wpc, wmsg, wire>>
+Drain == /\ closed /\ outbound # <<>> /\ outbound' = Tail(outbound) /\ UNCHANGED <<next, wpc, wmsg, wire, closed>>
+WClosed(w) == /\ wpc[w] = "write" /\ closed /\ wpc' = [wpc EXCEPT ![w] = "dead"] /\ UNCHANGED <<next, outbound, wmsg, wire, closed>>
 \* the connection accepts part of the frame and reports an error (a lapsed write deadline): outbound() gives up -- it logs fatally, the
 \* writer goroutine ends, nothing is written any more (a retry that re-sent the whole message would put its prefix on the wire twice)
 WFail(w) == /\ WriteFails /\ wpc[w] = "write"
             /\ wire' = Append(wire, <<wmsg[w][1], wmsg[w][2], "part">>) /\ wpc' = [wpc EXCEPT ![w] = "dead"]
-            /\ UNCHANGED <<next, outbound, wmsg>>
-Next == (\E p \in Producers : Submit(p)) \/ (\E w \in Writers : WRecv(w) \/ WWrite(w) \/ WFail(w))
+            /\ UNCHANGED <<next, outbound, wmsg, closed>>
+Next == (\E p \in Producers : Submit(p)) \/ (\E w \in Writers : WRecv(w) \/ WWrite(w) \/ WFail(w) \/ WClosed(w)) \/ AppShutdown \/ Drain
 Spec == Init /\ [][Next]_vars /\ WF_vars(\E w \in Writers : WRecv(w) \/ WWrite(w)) /\ \A p \in Producers : WF_vars(Submit(p))
 \* every frame on the wire is a submitted message, at most once
 OnceOnly == \A i, j \in 1..Len(wire) : wire[i] = wire[j] => i = j
@@ -33,5 +38,5 @@ ProducerOrder == \A i, j \in 1..Len(wire) : (i < j /\ wire[i][1] = wire[j][1]) =
 \* a partially written frame is the last thing on the wire (with one writer)
 IsPart(x) == Len(x) = 3
 NothingAfterPartial == \A i \in 1..Len(wire) : IsPart(wire[i]) => i = Len(wire)
-AllWritten == ~WriteFails => <>[](Len(wire) = Cardinality(Producers) * PerProducer)
+AllWritten == (~WriteFails /\ ~AppShuts) => <>[](Len(wire) = Cardinality(Producers) * PerProducer)
 =============================================================================
